@@ -1,6 +1,7 @@
 import PeptVerif.Lemmas.Effects
 import PeptVerif.Lemmas.EffectsNested
 import PeptVerif.Model.EffectsApi
+import PeptVerif.Lemmas.EffectsApi
 import PeptVerif.Generated.Effects
 /-!
 # C08 — queries never change their arguments or depend on call history
@@ -11,8 +12,9 @@ current /repo source on every run.
 * `postfix_bounds_every_trace`, `mayWrite_sound`, `mayWriteGlobal_sound` hold for **any** program, summary table,
   trace (any order / repetition / prefix of the statements) and initial versions: they are the unbounded part.
 * `history_independent`, `later_query_same_result`: histories of any length.
-* `generated_*`, `summaries_closed`, `getters_pure`, `api_covered`: decided by the kernel over the regenerated module;
-  a change in /repo that introduces a write into a query breaks them (the driver then names the function).
+* `generated_*`, `summaries_closed`, `getters_pure`, `api_covered`: decided by the kernel over the regenerated modules
+  (one generated file and one kernel check per Python source module, assembled in `Gen.all_ok`); a change in /repo that
+  introduces a write into a query, or lets a result share state with an argument, breaks them (the driver names the function).
 
 What this does **not** state: that a returned object is not identical to (part of) an argument — checked dynamically only.
 Trusted: the translator's classification of Python statements (harness/translate_effects.py, header), and the step from
@@ -288,58 +290,99 @@ example :
     (execN [callee] [.param 0 0, .call 2 0 [some 0]] (.step 0 .done (.step 1 (.step 0 .done (.step 1 .done .done)) .done)) ⟨[], []⟩).log = [.root 0] := by
   decide
 
-/-! ## obligations over the regenerated module -/
+/-! ## obligations over the regenerated modules
 
-def fnOK (f : Nat) (k : FnInfo → Bool) : Bool :=
-  match Gen.fns[f]? with
-  | some i => k i
-  | none => false
+The translator writes one Lean file per Python source module (`Generated/Effects/M_<module>.lean`) holding the programs and
+tables of that module's functions and one theorem `Gen.M_<module>.ok`, decided by the kernel: for each of these functions the
+table is closed under the program, the summary the program induces is within the global summary table, and the write / sharing
+sets read off the table are the verdict claimed in the global verdict table (`Generated/Effects/Core.lean`).  `Gen.all_ok`
+assembles them.  A change of one function body therefore re-checks one module; the obligations below are decided over the
+small verdict table and tied to the programs by `generated_verdicts_correct`. -/
 
-/-- the explicit list `Effects.declaredSharing` (Model/EffectsApi.lean), as code points -/
-def declaredSharingCodes : List (List Nat) := declaredSharing.map (fun s => s.toList.map Char.toNat)
+/-- the verdict claimed (and checked) for function `f` -/
+abbrev V (f : Nat) : Verdict := verdictOf Gen.verdicts f
 
+/-- member of the explicit list `Effects.declaredSharing` (Model/EffectsApi.lean) -/
 def isDeclaredSharing (e : Gen.ApiEntry) : Bool := declaredSharingCodes.contains e.code
 
-/-- the explicit list `Effects.declaredOutside` (Model/EffectsApi.lean), as code points -/
-def declaredOutsideCodes : List (List Nat) := declaredOutside.map (fun s => s.toList.map Char.toNat)
-
+/-- member of the explicit list `Effects.declaredOutside` (Model/EffectsApi.lean) -/
 def isOutside (e : Gen.ApiEntry) : Bool := declaredOutsideCodes.contains e.code
 
-/-- every emitted table is closed under its program and the summary table the calls are executed by is closed under every
-body (the other generated obligations read write sets off these tables; closedness is established here, once) -/
-theorem summaries_closed : (List.range Gen.fns.length).all (fun f => closedAt Gen.summaries Gen.fns f) = true := by
+/-- the code-point lists used below are the explicit name lists of Model/EffectsApi.lean -/
+theorem declared_lists_spelled :
+    declaredOutsideCodes = declaredOutside.map (fun s => s.toList.map Char.toNat) ∧
+    declaredSharingCodes = declaredSharing.map (fun s => s.toList.map Char.toNat) :=
+  ⟨declaredOutsideCodes_spelled, declaredSharingCodes_spelled⟩
+
+/-- the entry refers to a translated function -/
+def fidOK (e : Gen.ApiEntry) : Bool := e.fid < Gen.fnsIdx.length
+
+/-- every translated function passed the kernel check of its source module's generated file -/
+theorem generated_functions_checked :
+    Gen.fnsIdx.all (fun p => entryOK Gen.summaries Gen.verdicts p.1 p.2) = true := Gen.all_ok
+
+/-- function ids are positions in `Gen.fns` -/
+theorem generated_ids_are_positions : Gen.fnsIdx.map (·.1) = List.range Gen.fnsIdx.length := by
   decide +kernel
 
-/-- consequence: the table of every generated function is closed under its program -/
+theorem generated_entry (f : Nat) (i : FnInfo) (h : Gen.fns[f]? = some i) :
+    entryOK Gen.summaries Gen.verdicts f i = true := by
+  have hm := mem_of_idx Gen.fnsIdx generated_ids_are_positions f i h
+  have hall := generated_functions_checked
+  rw [List.all_eq_true] at hall
+  exact hall (f, i) hm
+
+/-- the table of every generated function is closed under its program -/
 theorem generated_tables_closed (f : Nat) (i : FnInfo) (hf : Gen.fns[f]? = some i) :
     closedB Gen.summaries i.prog i.table = true := by
-  have h := closedAll_of_range summaries_closed f i hf
-  unfold closedAt at h
-  rw [hf] at h
+  have h := generated_entry f i hf
+  unfold entryOK at h
   simp only [Bool.and_eq_true] at h
-  exact h.1
+  exact h.1.1.1.1.1
+
+/-- the summary table the calls are executed by is closed under every body -/
+theorem summaries_closed : (List.range Gen.fns.length).all (fun f => closedAt Gen.summaries Gen.fns f) = true := by
+  rw [List.all_eq_true]
+  intro f hf
+  rw [List.mem_range] at hf
+  have hi : Gen.fns[f]? = some Gen.fns[f] := List.getElem?_eq_getElem hf
+  have h := generated_entry f _ hi
+  unfold entryOK at h
+  simp only [Bool.and_eq_true] at h
+  unfold closedAt
+  rw [hi]
+  simp only [Bool.and_eq_true]
+  exact ⟨h.1.1.1.1.1, h.1.1.1.1.2⟩
+
+/-- the verdict table says what the analysis reads off the (closed) tables -/
+theorem generated_verdicts_correct (f : Nat) (i : FnInfo) (hf : Gen.fns[f]? = some i) :
+    sameSet (mayWriteIn Gen.summaries i.prog i.table) (V f).writes = true ∧
+    sameSet (mayWriteGlobalIn Gen.summaries i.prog i.table) (V f).globals = true ∧
+    sameSet (mayShareIn i.table i.ret) (V f).share = true ∧
+    sameSet (mayShareGlobalIn i.table i.ret) (V f).shareGlobals = true := by
+  have h := generated_entry f i hf
+  unfold entryOK at h
+  simp only [Bool.and_eq_true] at h
+  exact ⟨h.1.1.1.2, h.1.1.2, h.1.2, h.2⟩
 
 /-- every API member that is not a declared editor writes no parameter and no process-wide object -/
 theorem generated_queries_pure :
     Gen.api.all (fun e => e.editor || e.random || isOutside e ||
-      fnOK e.fid (fun i => (mayWriteIn Gen.summaries i.prog i.table == []) &&
-        (mayWriteGlobalIn Gen.summaries i.prog i.table == []))) = true := by
+      (fidOK e && ((V e.fid).writes == []) && ((V e.fid).globals == []))) = true := by
   decide +kernel
 
 /-- declared editors (add_*, pop_*, clear_*, setters, inplace=True, constructors) write nothing but their own object
 (parameter 0) and no process-wide object -/
 theorem generated_editors_write_only_target :
     Gen.api.all (fun e => !e.editor || e.random || isOutside e ||
-      fnOK e.fid (fun i => (mayWriteIn Gen.summaries i.prog i.table).all (fun j => j == 0) &&
-        (mayWriteGlobalIn Gen.summaries i.prog i.table == []))) = true := by
+      (fidOK e && (V e.fid).writes.all (fun j => j == 0) && ((V e.fid).globals == []))) = true := by
   decide +kernel
 
 /-- `shuffle` is random by contract: it may consume the module generator (object 0) and nothing else; its non-inplace
 form writes no parameter -/
 theorem generated_random_only_rng :
     Gen.api.all (fun e => !e.random ||
-      fnOK e.fid (fun i => (mayWriteIn Gen.summaries i.prog i.table).all (fun j => e.editor && j == 0) &&
-        (mayWriteGlobalIn Gen.summaries i.prog i.table).all (fun g => g == 0))) = true := by
+      (fidOK e && (V e.fid).writes.all (fun j => e.editor && j == 0) && (V e.fid).globals.all (fun g => g == 0))) = true := by
   decide +kernel
 
 /-- **Results are fresh.** Every API member that is not an editor, not declared outside and not in the explicit
@@ -347,35 +390,34 @@ theorem generated_random_only_rng :
 below a parameter, or a process-wide object (records handed in by the caller excepted, see `shareParamOf`). -/
 theorem generated_results_fresh :
     Gen.api.all (fun e => e.editor || isOutside e || isDeclaredSharing e ||
-      fnOK e.fid (fun i => (mayShareIn i.table i.ret == []) && (mayShareGlobalIn i.table i.ret == []))) = true := by
+      (fidOK e && ((V e.fid).share == []) && ((V e.fid).shareGlobals == []))) = true := by
   decide +kernel
 
 /-- the members of `declaredSharing` are there for a reason: the analysis does flag each of them -/
 theorem declared_sharing_is_flagged :
-    Gen.api.all (fun e => !isDeclaredSharing e || fnOK e.fid (fun i => !(mayShareIn i.table i.ret == []))) = true := by
+    Gen.api.all (fun e => !isDeclaredSharing e || (fidOK e && !((V e.fid).share == []))) = true := by
   decide +kernel
 
 /-- **The modification databases are untouched.** No member of the API surface - editors, members declared outside and
 random ones included - may write one of the module-level EntryDb objects or hand one back; and the only process-wide
 object any of them may write at all is the module random generator (object 0: `shuffle` and the randomizers). -/
 theorem generated_db_untouched :
-    Gen.api.all (fun e => fnOK e.fid (fun i =>
-      (mayWriteGlobalIn Gen.summaries i.prog i.table).all (fun g => !Gen.dbGlobals.contains g && g == 0) &&
-      (mayShareGlobalIn i.table i.ret).all (fun g => !Gen.dbGlobals.contains g))) = true := by
+    Gen.api.all (fun e => fidOK e &&
+      (V e.fid).globals.all (fun g => !Gen.dbGlobals.contains g && g == 0) &&
+      (V e.fid).shareGlobals.all (fun g => !Gen.dbGlobals.contains g)) = true := by
   decide +kernel
 
 /-- non-vacuity of `generated_db_untouched`: the analysis does see database writes - the explicit database editors
 (`reload_all_databases`, `reset_all_databases`) are flagged as writing EntryDb objects -/
 theorem db_editors_are_flagged :
     (!Gen.dbEditors.isEmpty && !Gen.dbGlobals.isEmpty &&
-      Gen.dbEditors.all (fun f => fnOK f (fun i =>
-        (mayWriteGlobalIn Gen.summaries i.prog i.table).any (fun g => Gen.dbGlobals.contains g)))) = true := by
+      Gen.dbEditors.all (fun f => f < Gen.fnsIdx.length && (V f).globals.any (fun g => Gen.dbGlobals.contains g))) = true := by
   decide +kernel
 
-/-- property getters are read as plain field access by the translator; they are analysed too and write nothing -/
+/-- property getters and implicitly invoked special methods are read as plain field access / not seen as calls by the
+translator; they are analysed too and write nothing -/
 theorem getters_pure :
-    Gen.getters.all (fun f => fnOK f (fun i =>
-      (mayWriteIn Gen.summaries i.prog i.table == []) && (mayWriteGlobalIn Gen.summaries i.prog i.table == []))) = true := by
+    Gen.getters.all (fun f => f < Gen.fnsIdx.length && ((V f).writes == []) && ((V f).globals == [])) = true := by
   decide +kernel
 
 /-- every public callable that accepts an annotation / dict / list is analysed or explicitly declared outside -/
@@ -384,8 +426,8 @@ theorem api_covered :
   decide +kernel
 
 /-- **End to end for the regenerated module**: an API member that is not a declared editor, not random by contract and not
-declared outside leaves every caller-visible object (parameters, everything below them, process-wide objects) at its version,
-for every trace of its translated body. -/
+declared outside leaves every caller-visible object (parameters, everything below them, records handed in, process-wide
+objects) at its version, for every trace of its translated body. -/
 theorem generated_query_frame (e : Gen.ApiEntry) (he : e ∈ Gen.api)
     (h1 : e.editor = false) (h2 : e.random = false) (h3 : isOutside e = false)
     (i : FnInfo) (hi : Gen.fns[e.fid]? = some i) (tr : List Nat) (ver : Obj → Nat) (o : Obj) (ho : isCaller o = true) :
@@ -393,12 +435,16 @@ theorem generated_query_frame (e : Gen.ApiEntry) (he : e ∈ Gen.api)
   have h := generated_queries_pure
   rw [List.all_eq_true] at h
   have hq := h e he
-  simp only [h1, h2, h3, Bool.false_or, fnOK, hi, Bool.and_eq_true, beq_iff_eq] at hq
-  have hpc : PureCall Gen.summaries ⟨i.prog, tr⟩ := ⟨i.table, generated_tables_closed e.fid i hi, hq.1, hq.2⟩
+  simp only [h1, h2, h3, Bool.false_or, Bool.and_eq_true, beq_iff_eq] at hq
+  obtain ⟨hw, hg, _, _⟩ := generated_verdicts_correct e.fid i hi
+  rw [hq.1.2] at hw
+  rw [hq.2] at hg
+  have hpc : PureCall Gen.summaries ⟨i.prog, tr⟩ :=
+    ⟨i.table, generated_tables_closed e.fid i hi, sameSet_nil hw, sameSet_nil hg⟩
   exact pure_call_frame Gen.summaries ⟨i.prog, tr⟩ hpc ver o ho
 
-/-- **End to end, results**: for such a member, in every trace, whatever the result may denote, hold or reach is allocated
-by the call or is a record handed in by the caller. -/
+/-- **End to end, results**: for a member that is not an editor, not declared outside and not in `declaredSharing`, in every
+trace, whatever the result may denote, hold or reach is allocated by the call or is a record handed in by the caller. -/
 theorem generated_result_frame (e : Gen.ApiEntry) (he : e ∈ Gen.api)
     (h1 : e.editor = false) (h2 : isOutside e = false) (h3 : isDeclaredSharing e = false)
     (i : FnInfo) (hi : Gen.fns[e.fid]? = some i) (tr : List Nat) (ver : Obj → Nat) (o : Obj)
@@ -407,8 +453,12 @@ theorem generated_result_frame (e : Gen.ApiEntry) (he : e ∈ Gen.api)
   have h := generated_results_fresh
   rw [List.all_eq_true] at h
   have hq := h e he
-  simp only [h1, h2, h3, Bool.false_or, fnOK, hi, Bool.and_eq_true, beq_iff_eq] at hq
-  exact result_fresh Gen.summaries i.prog i.table i.ret (closedB_sound (generated_tables_closed e.fid i hi)) hq.1 hq.2 tr ver o ho
+  simp only [h1, h2, h3, Bool.false_or, Bool.and_eq_true, beq_iff_eq] at hq
+  obtain ⟨_, _, hs, hsg⟩ := generated_verdicts_correct e.fid i hi
+  rw [hq.1.2] at hs
+  rw [hq.2] at hsg
+  exact result_fresh Gen.summaries i.prog i.table i.ret (closedB_sound (generated_tables_closed e.fid i hi))
+    (sameSet_nil hs) (sameSet_nil hsg) tr ver o ho
 
 /-- nested execution of the regenerated bodies is bounded by their tables (instance of `nested_calls_bounded`) -/
 theorem generated_nested_calls_bounded (tr : NTrace) (p : List Stmt) (A : Pts) (hA : closedB Gen.summaries p A = true)
@@ -416,9 +466,9 @@ theorem generated_nested_calls_bounded (tr : NTrace) (p : List Stmt) (A : Pts) (
     Le (execN Gen.fns p tr σ).pts A ∧ ∀ o, o ∈ (execN Gen.fns p tr σ).log → o ∈ σ.log ∨ o ∈ writeSet Gen.summaries p A :=
   nested_calls_bounded Gen.summaries Gen.fns summaries_closed tr p A hA σ hσ
 
-/-- the regenerated pure API members are `PureCall`s for every trace, so the history theorems apply to them -/
-theorem generated_query_is_pure_call (e : Gen.ApiEntry) (i : FnInfo)
-    (hi : Gen.fns[e.fid]? = some i)
+/-- a checked table without parameter / global writes makes every trace of the body a `PureCall`, so the history theorems
+apply to the regenerated pure API members -/
+theorem generated_query_is_pure_call (i : FnInfo)
     (hok : closedB Gen.summaries i.prog i.table = true) (hw : mayWriteIn Gen.summaries i.prog i.table = [])
     (hg : mayWriteGlobalIn Gen.summaries i.prog i.table = []) (tr : List Nat) :
     PureCall Gen.summaries ⟨i.prog, tr⟩ :=
